@@ -490,16 +490,21 @@ fn generate(sink: &mut CaseSink, seed: u64, thorough: bool) -> BTreeMap<String, 
         let pairs: Vec<(usize, usize)> = (0..n).flat_map(|j| (0..j).map(move |i| (i, j))).collect();
         for pat in 0..(1usize << npairs) {
             let mask = |i: usize, j: usize| -> bool { pairs.iter().position(|&q| q == (i, j)).map(|k| (pat >> k) & 1 == 1).unwrap_or(false) };
+            // n = 5 (thorough only): 1024 patterns x 120 orderings; one sign vector per pattern (rotating)
+            // and the dyadic residual conjuncts on every 6th ordering, to keep the volume evaluable
             let nsv = if thorough { 3 } else { 2 };
             for sv in 0..nsv {
+                if n == 5 && sv != pat % 3 { continue; }
                 let signs: Vec<i8> = (0..n).map(|k| match sv { 0 => 1, 1 => if k % 2 == 0 { 1 } else { -1 }, _ => if k < n / 2 { -1 } else { 1 } }).collect();
                 let (cp, rv, nz) = dd_values(&mut rng, n, &mask, &signs, &|_| true);
                 let mut p: Vec<usize> = (0..n).collect();
+                let mut ord = 0usize;
                 loop {
+                    ord += 1;
                     let b: Vec<f64> = (0..n).map(|i| 1.0 - 0.5 * i as f64).collect();
                     let c = Inp { stream: format!("patterns-n{}", n), mode: 'F', m: n, n, colptr: cp.clone(), rowval: rv.clone(), nzval: nz.clone(),
                         perm: Some(p.clone()), logical: false, dsigns: if sv == 0 { None } else { Some(signs.clone()) },
-                        reg_enable: true, eps: 1e-12, delta: 1e-7, ops: vec![OpIn::Solve(b)], resid: true };
+                        reg_enable: true, eps: 1e-12, delta: 1e-7, ops: vec![OpIn::Solve(b)], resid: n < 5 || ord % 6 == 1 };
                     emit(sink, &mut st, &c);
                     if !next_perm(&mut p) { break; }
                 }
@@ -509,7 +514,7 @@ fn generate(sink: &mut CaseSink, seed: u64, thorough: bool) -> BTreeMap<String, 
     // ---- general floats with histories
     let nfl = if thorough { 1200 } else { 260 };
     for t in 0..nfl {
-        let n = if t % 8 == 0 { rng.range(15, if thorough { 40 } else { 26 }) as usize } else { rng.range(1, 12) as usize };
+        let n = if t % 8 == 0 { rng.range(15, if thorough { 32 } else { 26 }) as usize } else { rng.range(1, 12) as usize };
         let c = gen_float(&mut rng, n, "float");
         emit(sink, &mut st, &c);
     }
